@@ -29,6 +29,29 @@ func genC18(r *simrt.RNG, tier string, variant int) Plan {
 		p.Clients = append(p.Clients, ClientPlan{Name: "B", Kind: Pick(r, []string{"http", "custom"}), Server: 0})
 	}
 	tok := 1
+	floodP := 0.0005 // a flood run costs as much as a thousand ordinary ones
+	if tier == "thorough" {
+		floodP = 0.004
+	}
+	if r.Bool(floodP) {
+		// a subscriber that stopped reading (its context still live) while the server
+		// pushed thousands of values - beyond any plausible internal bound - and then
+		// the close. The consumer drains the channel once the closer has returned.
+		p.Family = "flood"
+		nv := 9000
+		if tier == "thorough" {
+			nv = Pick(r, []int{2500, 9000, 12000})
+		}
+		p.Ops = append(p.Ops, Op{Kind: "sub", Client: 0, Tok: tok, N: nv, Stall: true})
+		tok++
+		p.Ops = append(p.Ops, Op{Kind: "call", Client: 0, Tok: tok, Size: 100, Hold: true})
+		tok++
+		p.Ops = append(p.Ops, Op{Kind: "call", Client: 0, Tok: tok, Phase: 2})
+		p.Params["max_steps"] = int64(nv)*80 + 100000
+		p.Params["coarse"] = 1
+		p.Params["close_step"] = int64(nv)*80 + 100000 // i.e. at quiescence, after the last value
+		return p
+	}
 	n := 3 + r.Intn(6)
 	for i := 0; i < n; i++ {
 		op := Op{Client: 0, Tok: tok, Hold: r.Bool(0.6)}
@@ -160,7 +183,14 @@ func runC18(e *Env, p *Plan) {
 			})
 			continue
 		}
-		if op.Phase == 0 {
+		if op.Phase == 0 && op.Stall && p.Family == "flood" {
+			tk := w.Register(op)
+			tk.mu.Lock()
+			tk.ConsGate = closedC // the consumer starts reading when the closer has returned
+			tk.mu.Unlock()
+			e.Probe("flood-to-a-stalled-subscriber")
+			w.Start(op, nil)
+		} else if op.Phase == 0 {
 			w.Start(op, nil)
 		} else {
 			w.Register(op)
@@ -204,7 +234,7 @@ func runC18(e *Env, p *Plan) {
 		if op.Client != 0 && t.Returned && t.RetErr != nil && op.Phase == 0 && !isConnErr(t.RetErr) && !t.Err {
 			e.Violate("C18.http-calls-undisturbed", "tok=%d on the %s client failed although only the closer was invoked: %v", t.ID, p.Clients[op.Client].Kind, t.RetErr)
 		}
-		if op.Kind == "sub" && !op.Stall {
+		if op.Kind == "sub" && (!op.Stall || p.Family == "flood" && done) {
 			st := e.Sub(op.Tok)
 			if st.Handed && !st.Closed {
 				e.Violate("C18.channels-closed", "subscription tok=%d: the channel handed to the caller was never closed (received %d values)", op.Tok, len(st.Received))
